@@ -275,18 +275,6 @@ fn run_impl(text: String, origin: Option<Name>) -> Ran {
     rx.recv_timeout(Duration::from_secs(WATCHDOG_S)).unwrap_or(Ran::Hang)
 }
 
-/// `RecordType::from_str` / `DNSClass::from_str` start with
-/// `debug_assert!(no ASCII lower-case letter)`; two callers do not upper-case first (known finding
-/// `mnemonic-case-debug-assert`): the type list of CSYNC, and class / type in the trust-anchor parser.
-/// Class predicate for a zone text: the mnemonic CSYNC is followed by a lower-case letter.
-fn csync_lowercase_item(text: &str) -> bool {
-    // (the lexer can cut items where white space does not, e.g. `"0"a`: any lower-case letter after the mnemonic)
-    match text.to_ascii_uppercase().find("CSYNC") {
-        Some(k) => text[k + 5..].chars().any(|c| c.is_ascii_lowercase()),
-        None => false,
-    }
-}
-
 /// `tanchor <text-hex>` : `serialize::txt::trust_anchor::Parser::new(text).parse()` — the other
 /// parser in serialize/txt; no model side; oracle: Ok or Err, never a panic or a hang.
 /// `zonep <path-hex> <origin|-> <text-hex>` : the zone parser with `path = Some(..)` (for `$INCLUDE`).
@@ -323,14 +311,7 @@ fn exec_other(t: &[&str], line: &str, rec: &mut Recorder) {
             std::process::exit(3);
         }
         Ok(Err(p)) => {
-            // the trust-anchor parser's only calls of the two from_str are the un-upper-cased ones
-            let class = if t[0] == "tanchor" && p.contains("is_ascii_lowercase") && text.chars().any(|c| c.is_ascii_lowercase()) {
-                "mnemonic-case-debug-assert"
-            } else if t[0] == "zonep" && p.contains("parent folder") && text.to_ascii_uppercase().contains("$INCLUDE") {
-                "include-path-without-parent"
-            } else {
-                ""
-            };
+            let class = "";
             rec.fail(idx, format!("panic: {p}"), class)
         }
         Ok(Ok(Ok(()))) => rec.stat("outcome.ok"),
@@ -417,10 +398,7 @@ pub fn exec(line: &str, rec: &mut Recorder) {
     ));
     // ---- the property's oracle, on the implementation's answer only
     match &ran {
-        Ran::Panic(p) => {
-            let class = if p.contains("is_ascii_lowercase") && csync_lowercase_item(&text) { "mnemonic-case-debug-assert" } else { "" };
-            rec.fail(idx, format!("panic: {p}"), class)
-        }
+        Ran::Panic(p) => rec.fail(idx, format!("panic: {p}"), ""),
         Ran::Hang => rec.fail(idx, "hang: no result within 30 s", ""),
         _ => {}
     }
@@ -1752,8 +1730,7 @@ fn fuzz_token(r: &mut Rng, t: &str) -> String {
     }
 }
 
-/// trust-anchor files (`. 172800 IN DNSKEY 257 3 8 <base64>`), valid and mutated, upper case only where
-/// the known debug-assert finding would fire otherwise (that one has its own corpus lines)
+/// trust-anchor files (`. 172800 IN DNSKEY 257 3 8 <base64>`), valid and mutated
 fn tanchor_case(r: &mut Rng) -> String {
     let mut toks: Vec<String> = ["example.com.", "172800", "IN", "DNSKEY", "257", "3", "8", "AwEAAagAIKlVZrpC6Ia7gEzahOR+9W29euxhJhVVLOyQbSEW0O8gcCjF", "FVQUTf6v58fLjwBd0YI0EzrAcQqBGCzh/RStIoO8g0NfnfL2MTJRkxoX"]
         .iter()
@@ -1762,8 +1739,7 @@ fn tanchor_case(r: &mut Rng) -> String {
     for _ in 0..r.below(3) {
         let i = r.below(toks.len() as u64) as usize;
         let f = fuzz_token(r, &toks[i].clone());
-        // class and type position: keep clear of the known finding
-        toks[i] = if (1..4).contains(&i) { f.to_ascii_uppercase() } else { f };
+        toks[i] = f;
     }
     if r.chance(1, 4) {
         toks.remove(1);
